@@ -16,6 +16,8 @@ import (
 	"sort"
 	"strconv"
 	"strings"
+	"sync"
+	"time"
 
 	"verif/harness/vrun"
 
@@ -30,6 +32,27 @@ type counting struct {
 
 func (c *counting) WriteHeader(code int) { c.wh++; c.ResponseRecorder.WriteHeader(code) }
 
+// blocking: the first WriteHeader or Write that reaches the connection parks the request until
+// released, so that another request to the same route can run from start to end in between.
+type blocking struct {
+	*counting
+	once    sync.Once
+	blocked chan struct{}
+	release chan struct{}
+}
+
+func (b *blocking) park() {
+	b.once.Do(func() {
+		close(b.blocked)
+		select {
+		case <-b.release:
+		case <-time.After(10 * time.Second):
+		}
+	})
+}
+func (b *blocking) WriteHeader(code int)        { b.park(); b.counting.WriteHeader(code) }
+func (b *blocking) Write(p []byte) (int, error) { b.park(); return b.counting.Write(p) }
+
 type Case struct {
 	Kind     string  `json:"kind"`
 	Mode     string  `json:"mode"`
@@ -39,6 +62,7 @@ type Case struct {
 	Throw    bool    `json:"throw"`
 	OnError  [][]any `json:"onerror"`
 	OnFormat bool    `json:"onformat"`
+	Overlap  bool    `json:"overlap"`
 	Items    [][]any `json:"items"`
 }
 
@@ -50,6 +74,8 @@ type Obs struct {
 	Trace  [][2]int            `json:"trace,omitempty"`
 	Bodies []string            `json:"bodies,omitempty"`
 	Err    string              `json:"err,omitempty"`
+	Second *Obs                `json:"second,omitempty"`
+	Lapped bool                `json:"lapped,omitempty"`
 }
 
 func str(x any) string { s, _ := x.(string); return s }
@@ -272,6 +298,45 @@ func runServer(c Case) (o Obs) {
 	if mux == nil {
 		return Obs{Err: "no server mux"}
 	}
+	if c.Overlap {
+		// request A parks at its first write to the connection; request B (same route) is served
+		// completely meanwhile; then A resumes. Each response must be what its own calls produce.
+		a := &blocking{counting: &counting{ResponseRecorder: httptest.NewRecorder()}, blocked: make(chan struct{}), release: make(chan struct{})}
+		done := make(chan any, 1)
+		go func() {
+			defer func() { done <- recover() }()
+			mux.ServeHTTP(a, httptest.NewRequest("GET", "/x", nil))
+		}()
+		var pa any
+		finished := false
+		select {
+		case <-a.blocked:
+			o.Lapped = true
+		case pa = <-done:
+			finished = true
+		case <-time.After(10 * time.Second):
+			return Obs{Err: "overlap: request A neither wrote nor returned"}
+		}
+		b := &counting{ResponseRecorder: httptest.NewRecorder()}
+		mux.ServeHTTP(b, httptest.NewRequest("GET", "/x", nil))
+		close(a.release)
+		if !finished {
+			select {
+			case pa = <-done:
+			case <-time.After(10 * time.Second):
+				return Obs{Err: "overlap: request A did not return after release"}
+			}
+		}
+		if pa != nil {
+			return Obs{Err: "overlap: request A panicked: " + fmt.Sprint(pa)}
+		}
+		lapped := o.Lapped
+		o = observe(a.counting)
+		o.Lapped = lapped
+		ob := observe(b)
+		o.Second = &ob
+		return o
+	}
 	rec := &counting{ResponseRecorder: httptest.NewRecorder()}
 	mux.ServeHTTP(rec, httptest.NewRequest("GET", "/x", nil))
 	return observe(rec)
@@ -358,7 +423,17 @@ func runMwScript(prios []int) (o Obs) {
 // BEFORE it. Every route is then served once; the body of each response is its trace.
 //
 //	{"kind":"mwreg","items":[["mw","closure",5],["route"],["mw","class",0],["route"]]}
+//
+// with route groups: ["group",parent] creates Server number k (creation order, 0 = the root) by
+// $s<parent>->group('/g<k>'); ["mw",kind,prio,target] and ["route",target] name the Server they act on.
 func runMwReg(c Case) (o Obs) {
+	tgt := func(it []any, i int) int {
+		if len(it) > i {
+			return num(it[i])
+		}
+		return 0
+	}
+	parent := []int{-1}
 	var sb strings.Builder
 	sb.WriteString("use Net\\Http\\Server;\n")
 	nm, nr := 0, 0
@@ -370,21 +445,43 @@ func runMwReg(c Case) (o Obs) {
 			nm++
 		}
 	}
-	sb.WriteString("$server = new Server('127.0.0.1', 0);\n")
+	sb.WriteString("$server = new Server('127.0.0.1', 0);\n$s0 = $server;\n")
 	nm = 0
+	var routeOn []int
 	for _, it := range c.Items {
 		switch str(it[0]) {
+		case "group":
+			k := len(parent)
+			fmt.Fprintf(&sb, "$s%d = $s%d->group('/g%d');\n", k, tgt(it, 1), k)
+			parent = append(parent, tgt(it, 1))
 		case "mw":
 			if str(it[1]) == "class" {
-				fmt.Fprintf(&sb, "$server->middleware(new Mw%d(), %d);\n", nm, num(it[2]))
+				fmt.Fprintf(&sb, "$s%d->middleware(new Mw%d(), %d);\n", tgt(it, 3), nm, num(it[2]))
 			} else {
-				fmt.Fprintf(&sb, "$server->middleware(function ($request, $response, $next) { $response->write(\"E%d;\"); $next($request, $response); $response->write(\"X%d;\"); }, %d);\n", nm, nm, num(it[2]))
+				fmt.Fprintf(&sb, "$s%d->middleware(function ($request, $response, $next) { $response->write(\"E%d;\"); $next($request, $response); $response->write(\"X%d;\"); }, %d);\n", tgt(it, 3), nm, nm, num(it[2]))
 			}
 			nm++
 		case "route":
-			fmt.Fprintf(&sb, "$server->get('/r%d', function ($req, $res) { $res->write(\"F;\"); });\n", nr)
+			fmt.Fprintf(&sb, "$s%d->get('/r%d', function ($req, $res) { $res->write(\"F;\"); });\n", tgt(it, 1), nr)
+			routeOn = append(routeOn, tgt(it, 1))
 			nr++
 		}
+	}
+	// candidate URLs of a route on Server t: the group's own prefix (what the code does today), or the
+	// concatenation of the prefixes down from the root (should nested groups ever compose)
+	urls := func(t, r int) []string {
+		own, chain := "", ""
+		if t > 0 {
+			own = fmt.Sprintf("/g%d", t)
+		}
+		for x := t; x > 0; x = parent[x] {
+			chain = fmt.Sprintf("/g%d", x) + chain
+		}
+		u := []string{fmt.Sprintf("%s/r%d", own, r)}
+		if chain != own {
+			u = append(u, fmt.Sprintf("%s/r%d", chain, r))
+		}
+		return u
 	}
 	defer func() {
 		if r := recover(); r != nil {
@@ -417,8 +514,14 @@ func runMwReg(c Case) (o Obs) {
 	// serve the routes in reverse registration order (a cache filled by an early route must not leak)
 	var bodies []string
 	for r := nr - 1; r >= 0; r-- {
-		rec := &counting{ResponseRecorder: httptest.NewRecorder()}
-		mux.ServeHTTP(rec, httptest.NewRequest("GET", fmt.Sprintf("/r%d", r), nil))
+		var rec *counting
+		for _, u := range urls(routeOn[r], r) {
+			rec = &counting{ResponseRecorder: httptest.NewRecorder()}
+			mux.ServeHTTP(rec, httptest.NewRequest("GET", u, nil))
+			if rec.Code != 404 {
+				break
+			}
+		}
 		bodies = append([]string{rec.Body.String()}, bodies...)
 		if rec.wh > 1 {
 			o.Wh = rec.wh
